@@ -19,7 +19,7 @@ func init() {
 		ID: "C07",
 		Meta: func(tier string) fw.Meta {
 			return fw.Meta{
-				Flavours: []string{"plain", "race", "cover"},
+				Flavours: []string{"plain", "race", "cover", "386"},
 				Blocks:   16,
 				Procs:    16,
 				Rule: "case = (constructor, operation history over Add/Push/Pop/PopLast/Clear); three generators: " +
